@@ -140,7 +140,7 @@ var vcCache sync.Map // hash -> Result
 
 func dischargeVC(x *Exec, o *Obligation, opts verifyOpts) (Result, bool) {
 	// first the quantifier-free weakening (decidable, fast, stable); then the quantified query
-	var r Result
+	var r, qfRes Result
 	disagree := false
 	prevText := ""
 	{
@@ -163,6 +163,7 @@ func dischargeVC(x *Exec, o *Obligation, opts verifyOpts) (Result, bool) {
 			return qr, disagree
 		}
 		r = qr
+		qfRes = qr
 	}
 	for _, rounds := range []int{1, 3} {
 		q := x.buildQueryR(o, opts.depth, rounds)
@@ -189,6 +190,10 @@ func dischargeVC(x *Exec, o *Obligation, opts verifyOpts) (Result, bool) {
 		if !opts.fullFallback {
 			break
 		}
+	}
+	if qfRes.Status == "sat" && r.Status != "sat" {
+		// the quantifier-free weakening has a model (a candidate counterexample to replay)
+		return qfRes, disagree
 	}
 	return r, disagree
 }
